@@ -137,6 +137,9 @@ impl<'a> PW<'a> {
         };
         let body = json!({"sender": self.s.sym_of(sender.as_str()), "denoms": denoms, "dec": decs, "fee": self.s.fee_json(&f),
             "kind": kind, "amp": limbs64(amp), "id": id.unwrap_or("none"), "funds": funds_json(&self.s, funds),
+            // syntactic facts about the requested identifier (TLC has no string operations)
+            "id_len": id.map(|s| s.len()).unwrap_or(0),
+            "id_chars_ok": id.map(|s| s.chars().all(|c| c.is_ascii_alphanumeric() || c == '/' || c == '.')).unwrap_or(true),
             "tf": funds_json(&self.s, &self.s.cfg.tf_fee.clone())});
         self.finish("pm_create_pool", body, &r)
     }
@@ -346,6 +349,11 @@ fn sc_create_pool_classes(t: &mut Tracer, cfg: SysCfg, name: &str) {
     w.create_pool(&b, &["uusdc", "uusdt"], &[6, 6], f0.clone(), CP, Some("1"), &ok); // duplicate
     w.create_pool(&b, &["uusdc", "uusdt"], &[6, 6], f0.clone(), CP, Some("bad-id"), &ok);
     w.create_pool(&b, &["uusdc", "uusdt"], &[6, 6], f0.clone(), CP, Some("waytoolongidentifierwaytoolongidentifierwaytoolongidentifier"), &ok);
+    // the LP subdenom "o.<id>.LP" has to fit the token factory's 44 characters: 39 characters fit, 40 do not
+    w.create_pool(&b, &["uusdc", "uusdt"], &[6, 6], f0.clone(), CP, Some("x234567890123456789012345678901234567890"), &ok);
+    w.create_pool(&b, &["uusdc", "uusdt"], &[6, 6], f0.clone(), CP, Some("x23456789012345678901234567890123456789"), &ok);
+    w.create_pool(&b, &["uusdc", "uusdt"], &[6, 6], f0.clone(), CP, Some("a/b.c"), &ok);
+    w.create_pool(&b, &["uusdc", "uusdt"], &[6, 6], f0.clone(), CP, Some("sp ace"), &ok);
     w.create_pool(&b, &["uusdc", "uusdt"], &[6, 6], f0.clone(), CP, None, &ok); // p.2
     w.create_pool(&o, &["uusd", "uusdc", "uusdt", "uweth"], &[6, 6, 6, 18], f0.clone(), SS(1000), Some("four"), &ok);
     // later history: deposits, swaps, toggles and config updates must never rewrite pool parameters
@@ -1103,6 +1111,29 @@ pub fn run_stable(rng: &mut StdRng, thorough: bool, t: &mut Tracer) {
             w.swap(&lp, "o.s", &[coin(100_000_000_000, "uusdc")], "uusd", None, Some(Decimal::percent(50)), None);
             w.swap(&lp, "o.s", &[coin(1_000, "uusdc")], "uusd", None, Some(Decimal::percent(50)), None);
             w.rsim("o.s", &coin(1_000_000, "uusd"), "uusdc");
+        }
+    }
+    // outside the supported range: an asset registered with more than 18 decimals (the contract cannot scale it: every quote is
+    // refused), and first deposits skewed 10^6:1 .. 10^7:1 (the invariant used to mint must still be the root, or the deposit refused)
+    {
+        let mut w = PW::new(SysCfg::default(), t, "stable_outside_supported_range");
+        let o = w.user(0);
+        let ok = w.creation_funds();
+        let lp = w.user(1);
+        let half = Some(Decimal::percent(50));
+        if w.create_pool(&o, &["uusd", "uweth"], &[6, 24], zero.clone(), SS(85), Some("wide"), &ok) {
+            w.provide(&lp, "o.wide", &sorted(vec![coin(1_000_000_000, "uusd"), coin(1_000_000_000_000_000_000_000_000_000, "uweth")]), None, None, None, None, None);
+            w.swap(&lp, "o.wide", &[coin(1_000_000_000_000_000_000_000_000, "uweth")], "uusd", None, half, None);
+            w.swap(&lp, "o.wide", &[coin(1_000_000, "uusd")], "uweth", None, half, None);
+            w.rsim("o.wide", &coin(1_000_000, "uusd"), "uweth");
+        }
+        for (k, (amp, big)) in [(85u64, 10_000_000_000_000_000u128), (1, 1_000_000_000_000_000), (100, 10_000_000_000_000_000), (1_000_000, 10_000_000_000_000_000)].iter().enumerate() {
+            let id = format!("lop{k}");
+            if w.create_pool(&o, &["uusd", "uusdc", "uusdt", "uweth"], &[6, 6, 6, 6], zero.clone(), SS(*amp), Some(&id), &ok) {
+                let pid = format!("o.{id}");
+                w.provide(&lp, &pid, &sorted(vec![coin(*big, "uusd"), coin(1_000_000_000, "uusdc"), coin(1_000_000_000, "uusdt"), coin(1_000_000_000, "uweth")]), None, None, None, None, None);
+                w.swap(&lp, &pid, &[coin(1_000_000, "uusdc")], "uusd", None, half, None);
+            }
         }
     }
     // the witness of recorded finding F12 (first-deposit D of a skewed four-asset pool), independent of the seed
